@@ -36,12 +36,15 @@ End ExprInd.
 
 Lemma in_ty_b_true t z : in_ty_b t z = true -> in_ty t z.
 Proof.
-  destruct t; cbn [in_ty_b in_ty]; intro H; try discriminate; try exact I.
-  - apply orb_true_iff in H as [H|H]; apply Z.eqb_eq in H; auto.
-  - apply andb_true_iff in H as [H1 H2]. apply Z.leb_le in H1. apply Z.ltb_lt in H2. lia.
-  - apply andb_true_iff in H as [H1 H2]. apply Z.leb_le in H1. apply Z.ltb_lt in H2. lia.
-  - apply andb_true_iff in H as [H1 H2]. apply Z.leb_le in H1. apply Z.ltb_lt in H2. lia.
-  - apply andb_true_iff in H as [H1 H2]. apply Z.leb_le in H1. apply Z.ltb_lt in H2. lia.
+  (* written so that a further data type given a range in AV.Builtins.Spec keeps proving itself *)
+  destruct t; cbn [in_ty_b in_ty]; intro H; try discriminate; try exact I;
+    repeat match goal with
+           | K : (_ && _)%bool = true |- _ => apply andb_true_iff in K; destruct K
+           | K : (_ || _)%bool = true |- _ => apply orb_true_iff in K; destruct K
+           | K : (_ <=? _) = true |- _ => apply Z.leb_le in K
+           | K : (_ <? _) = true |- _ => apply Z.ltb_lt in K
+           | K : (_ =? _) = true |- _ => apply Z.eqb_eq in K
+           end; try lia; try tauto.
 Qed.
 
 Lemma typed_b_true ts : forall vs, typed_b ts vs = true -> typed ts vs.
